@@ -33,6 +33,13 @@ Definition is_plain (p : pval) : bool := match p with PPlain _ => true | PIA _ =
 
 Record comp := mkComp { c_fn : fnid ; c_args : list name }.
 
+(** a surrogate (MockSurrogate / surrogates.qss.Surrogate / ...): [predict] maps the values of [su_args]
+    to one value per output name; an output named in a stoichiometry is a FLUX (it appears as a
+    reaction name in the cache's coefficient tables), the others are values other components may
+    name as arguments.  [su_outs] pairs every output with the function computing it from the
+    argument values (used by the numeric specification only; the conversion reads the NAMES). *)
+Record surr := mkSurr { su_args : list name ; su_outs : list (name * fnid) }.
+
 Record smodel := mkSM {
   m_vars : list name ;                          (* _variables keys = cache.var_names = initial_conditions keys *)
   m_pars : list (name * pval) ;                 (* _parameters, declaration order *)
@@ -41,7 +48,8 @@ Record smodel := mkSM {
   m_rxn : list (name * comp) ;                  (* _reactions, declaration order *)
   m_order : list name ;                         (* cache.order *)
   m_stoich : list (name * list (name * Q)) ;    (* cache.stoich_by_cpds : cpd -> rxn -> number *)
-  m_dyn : list (name * list (name * comp))      (* cache.dyn_stoich_by_cpds : cpd -> rxn -> Derived *)
+  m_dyn : list (name * list (name * comp)) ;    (* cache.dyn_stoich_by_cpds : cpd -> rxn -> Derived *)
+  m_surr : list (name * surr)                   (* _surrogates, declaration order *)
 }.
 
 (** ---- facts regenerated from the source ------------------------------------------------ *)
@@ -50,7 +58,7 @@ Inductive closure_third := ThirdParamRecords | ThirdNumericByName | ThirdBaseVal
 Inductive jac_layout := JacEqsByVars | JacUnknown.
 Inductive eqs_order := EqsByVarNames | EqsUnknown.
 Inductive lam_args := LamTimeVarsPars | LamUnknown.
-Inductive sym_table := SymVarsParsData | SymUnknown.
+Inductive sym_table := SymVarsParsData | SymVarsParsDataSurr | SymUnknown.
 Inductive stat_term := StatFloatTimesRate | StatUnknown.
 Inductive dyn_term := DynListTimesRate | DynCoefTimesRate | DynUnknown.
 Inductive fallback_kind := FallbackWarnAnyException | FallbackUnknown.
@@ -58,7 +66,7 @@ Inductive time_arg := TimePlain | TimeShifted | TimeUnknown.
 
 Record sym_facts := mkSymFacts {
   sf_order : der_order ;          (* derived inserted into the symbol table in which order *)
-  sf_symtab : sym_table ;         (* symbols = variables | parameters | data *)
+  sf_symtab : sym_table ;         (* symbols = variables | parameters | data   (| surrogates: the merged table, a regression) *)
   sf_stat : stat_term ;           (* eqs[cpd] = eqs.get(cpd, 0.0) + Float(n) * rxns[rxn] *)
   sf_dyn : dyn_term ;             (* the dynamic-coefficient statement (list * expression) *)
   sf_eqs : eqs_order ;            (* eqs = [eqs[i] for i in cache.var_names] *)
@@ -95,7 +103,23 @@ Definition plain_par_names (m : smodel) : list name :=
 
 (** keys of  variables | parameters | data  (parameters = get_parameter_values(): plain ones only) *)
 Definition base_names (m : smodel) : list name := m_vars m ++ plain_par_names m ++ m_data m.
-Definition base_symbols (m : smodel) : list (name * expr) := map (fun n => (n, ESym n)) (base_names m).
+Definition sym_entries (ns : list name) : list (name * expr) := map (fun n => (n, ESym n)) ns.
+Definition base_symbols (m : smodel) : list (name * expr) := sym_entries (base_names m).
+
+(** model.get_surrogate_output_names(include_fluxes=True) *)
+Definition surr_outputs (m : smodel) : list name := flat_map (fun s => map fst (su_outs (snd s))) (m_surr m).
+
+(** the keys of the translation symbol table [symbols] under the regenerated fact.  The shipped table
+    is  variables | parameters | data : a surrogate output is NOT a key (it is only reported in
+    SymbolicModel.external), so naming one is a KeyError.  SymVarsParsDataSurr is the merged table
+    variables | parameters | data | surrogates  (every value is the symbol of its own key, so the
+    order of the union is irrelevant to the lookups). *)
+Definition table_names (F : sym_facts) (m : smodel) : option (list name) :=
+  match sf_symtab F with
+  | SymVarsParsData => Some (base_names m)
+  | SymVarsParsDataSurr => Some (base_names m ++ surr_outputs m)
+  | SymUnknown => None
+  end.
 
 Section WithSymPy.
   Variable fsym : fnid -> list expr -> option expr.   (* fn_to_sympy(fn, model_args=...) ; None = cannot parse *)
@@ -228,11 +252,11 @@ Section WithSymPy.
     | DynUnknown => inl ErrUnmodelled
     end.
 
-  Definition to_symbolic (F : sym_facts) (m : smodel) : sym_result :=
+  Definition to_symbolic_on (names : list name) (F : sym_facts) (m : smodel) : sym_result :=
     match der_sequence F m with
     | None => SymErr ErrUnmodelled
     | Some ds =>
-    match insert_derived ds (base_symbols m) with
+    match insert_derived ds (sym_entries names) with
     | inl e => SymErr e
     | inr tab =>
     match conv_rxns tab (m_rxn m) with
@@ -248,6 +272,12 @@ Section WithSymPy.
     | None => SymErr ErrKey
     | Some l => SymOk l
     end end end end end end.
+
+  Definition to_symbolic (F : sym_facts) (m : smodel) : sym_result :=
+    match table_names F m with
+    | None => SymErr ErrUnmodelled
+    | Some names => to_symbolic_on names F m
+    end.
 
   (** SymbolicModel.jacobian: rows = equations (variable order), columns = variables.values() *)
   Definition jacobian (eqs : list expr) (vars : list name) : list (list expr) :=
@@ -286,6 +316,11 @@ Section WithSymPy.
     | _, _ => None
     end.
 
+  (** evaluation inside the lambdified function.  A name bound to a Parameter container: TypeError.
+      An UNBOUND name (a data or -- merged table -- surrogate symbol): SymPy's lambdify leaves the Symbol
+      object in the function's namespace, the entry of the returned matrix is a SymPy expression and
+      not a number (SciPy then dies with TypeError "Cannot convert expression to float"); this
+      not-a-number outcome is what [ErrName] stands for. *)
   Fixpoint eval_py (env : list (name * pyval)) (e : expr) : err + Q :=
     match e with
     | EConst q => inr q
@@ -377,6 +412,12 @@ Section Numeric.
   Definition Resolved (m : smodel) (env : name -> Q) : Prop :=
     (forall k c, In (k, c) (m_der m) -> env k == fsem (c_fn c) (map env (c_args c))) /\
     (forall k c, In (k, c) (m_rxn m) -> env k == fsem (c_fn c) (map env (c_args c))).
+
+  (** ... and every surrogate output has the value its surrogate predicts from the argument values
+      (needed only to SHOW that a Jacobian is wrong when a surrogate output is treated as a constant:
+      the positive theorems hold whatever the surrogate outputs are) *)
+  Definition SurrResolved (m : smodel) (env : name -> Q) : Prop :=
+    forall k s o f, In (k, s) (m_surr m) -> In (o, f) (su_outs s) -> env o == fsem f (map env (su_args s)).
 
   Fixpoint row_sum (env : name -> Q) (st : list (name * Q)) : Q :=
     match st with [] => 0 | (r, n) :: rest => n * env r + row_sum env rest end.
